@@ -1064,6 +1064,21 @@ fn gen_keepalive(repo: &Path, g: &mut Gen) -> R<()> {
         syn::visit::Visit::visit_block(&mut v, prc);
         v.found.ok_or_else(|| Shape(format!("{ps_rel}: poll_reconnect: no `Poll::Ready(Ok(_))` arm")))?
     };
+    // poll_close while Disconnected: does it keep the reconnection going (poll it), or just answer Pending?
+    let close_polls = {
+        let pc = method_body(&ps, "poll_close", 0).ok_or_else(|| Shape(format!("{ps_rel}: fn poll_close not found")))?;
+        struct V { found: Option<bool> }
+        impl<'ast> syn::visit::Visit<'ast> for V {
+            fn visit_arm(&mut self, a: &'ast syn::Arm) {
+                let p = &a.pat;
+                if quote::quote!(#p).to_string().starts_with("ConnectionStatus :: Disconnected") { let b = &a.body; self.found = Some(quote::quote!(#b).to_string().contains("poll_reconnect")); }
+                syn::visit::visit_arm(self, a);
+            }
+        }
+        let mut v = V { found: None };
+        syn::visit::Visit::visit_block(&mut v, pc);
+        v.found.ok_or_else(|| Shape(format!("{ps_rel}: poll_close: no `ConnectionStatus::Disconnected` arm")))?
+    };
     // requestor: does on_reconnect start a reply reader for the new stream?
     let onr = method_body(&rq, "on_reconnect", 0).ok_or_else(|| Shape(format!("{rq_rel}: fn on_reconnect not found")))?;
     let onr_t = quote::quote!(#onr).to_string();
@@ -1087,7 +1102,7 @@ fn gen_keepalive(repo: &Path, g: &mut Gen) -> R<()> {
     let _ = writeln!(s, "/-- {rq_rel}: `on_reconnect` starts a reply reader for the new stream -/\ndef requestorRestartsReader : Bool := {restarts}");
     let _ = writeln!(s, "/-- {h_rel}: `is_recoverable_error` -/\ndef ioConnectionResetRecoverable : Bool := {}\ndef ioNotConnectedRecoverable : Bool := {}\ndef quicConnectionErrorRecoverable : Bool := {quic_conn}\ndef replierAlreadyBoundRecoverable : Bool := {}",
         io_arm && io_reset, io_arm && io_notconn, open_arm && bind_code);
-    let _ = writeln!(s, "/-- {ps_rel}: where the wrapper fires the task's waker itself (`cx.waker().wake_by_ref()`): when the budget is exhausted, after arming the next attempt, after a successful reconnection -/\ndef wakesOnExhaustion : Bool := {wake_exhaust}\ndef wakesAfterArmingAttempt : Bool := {wake_arm}\ndef wakesOnReconnect : Bool := {wake_ok}");
+    let _ = writeln!(s, "/-- {ps_rel}: where the wrapper fires the task's waker itself (`cx.waker().wake_by_ref()`): when the budget is exhausted, after arming the next attempt, after a successful reconnection -/\ndef wakesOnExhaustion : Bool := {wake_exhaust}\ndef wakesAfterArmingAttempt : Bool := {wake_arm}\ndef wakesOnReconnect : Bool := {wake_ok}\n/-- {ps_rel}: `poll_close` polls the reconnection attempt while the wrapper is Disconnected -/\ndef closeKeepsReconnecting : Bool := {close_polls}");
     g.emit("KeepAlive", &[rr_rel, ps_rel, h_rel, rq_rel], &s);
     Ok(())
 }
